@@ -12,12 +12,13 @@ D(e) == TypeTable[e.ty]
 (* the encoding of a value of one type decoded as another type (events "cross"): where the other type accepts the item, the value  *)
 (* it returns denotes the same data item - for the types whose acceptance is exact.  Not exact by design, and left out: sets and   *)
 (* maps (duplicates collapse, order is the collection's), f64 (reads narrower floats), durations (nanoseconds carry), a bare Tag,   *)
-(* and the range types, which are read like derived structs (fields by position, surplus elements ignored).                        *)
+(* the range types, which are read like derived structs (fields by position, surplus elements ignored), and Bound, whose          *)
+(* Unbounded is read like a derived unit variant (the content is skipped whatever it is).                                           *)
 RECURSIVE Exact(_)
 Exact(d) == CASE d.d \in {"int", "bool", "char", "f32", "text", "bytes", "cstr", "unit"} -> TRUE
               [] d.d \in {"f64", "map", "tag"} -> FALSE
               [] d.d \in {"opt", "tagged"} -> Exact(d.e)
-              [] d.d = "var"   -> \A i \in 1..Len(d.alts) : Exact(d.alts[i])
+              [] d.d = "var"   -> ~d.lax /\ \A i \in 1..Len(d.alts) : Exact(d.alts[i])
               [] d.d = "seq"   -> ~d.set /\ ~d.unordered /\ Exact(d.e)
               [] d.d = "tuple" -> ~d.dur /\ ~d.lax /\ \A i \in 1..Len(d.es) : Exact(d.es[i])
 DecIs(o, v, n) == o.p = "run" /\ o.dec_ok /\ o.dec = v /\ o.pos = n
